@@ -83,7 +83,8 @@ class C19(Check):
                         "stages": [self._rand_stage(rng) for _ in range(ns)], "x": rng.randint(-4, 9),
                         "mode": rng.choice(["sequential", "sequential", "parallel", "conditional", "amplifying"]),
                         "runs": rng.choice([1, 2, 2, 3]),
-                        "build": rng.choice(["add", "add", "insert", "reverse-insert", "dummy-removed", "late-gate", "mixed"])})
+                        "build": rng.choice(["add", "add", "insert", "reverse-insert", "dummy-removed", "late-gate", "mixed"]),
+                        "entry": rng.choice(["run", "run", "run", "run_parallel"])})
         return out
 
     def exhaustive_cases(self):
@@ -101,7 +102,12 @@ class C19(Check):
                                 "mode": ["sequential", "parallel", "conditional", "amplifying"][(len(out) // 7) % 4],
                                 "runs": 1 + (len(out) % 2),
                                 "build": ["add", "insert", "reverse-insert", "dummy-removed", "late-gate", "mixed"][(len(out) // 3) % 6]})
-        return out
+        # the fork pattern: every pipeline of <= 2 (quick) / <= 3 (thorough) stages again through run_parallel
+        par = []
+        for c in out:
+            if len(c["stages"]) <= top and c["halt"]:
+                par.append({**c, "entry": "run_parallel"})
+        return out + par
 
     def extra_checks(self):
         # the MAPK preset uses dict signals; it is checked by the monitor only
@@ -186,13 +192,17 @@ class C19(Check):
                     pos += 2
         assert [st.name for st in casc._stages] == [f"s{i}" for i in range(len(stages))], "harness: wrong stage order"
         # the same object is run several times: every run must be judged (and come out) on its own
+        parallel = case.get("entry") == "run_parallel"
+        entry = casc.run_parallel if parallel else casc.run
         earlier = []
         for _ in range(max(0, case.get("runs", 1) - 1)):
-            r0 = casc.run(case["x"])
-            earlier.append(self._summary(r0, list(log)))
+            r0 = entry(case["x"])
+            earlier.append(self._summary(r0, sorted(log) if parallel else list(log), parallel))
             del log[:]
-        res = casc.run(case["x"])
+        res = entry(case["x"])
         codes = {"completed": 0, "failed": 1, "skipped": 2, "blocked": 3}
+        if parallel:
+            return self._obs_parallel(case, res, log, earlier, codes)
         amp = Fraction(res.total_amplification)
         out = res.final_output
         obs = [[int(bool(res.success)), int(out is not None), out if isinstance(out, int) else 0,
@@ -212,10 +222,39 @@ class C19(Check):
                  "amp": amp, "blocked": res.blocked_at, "earlier": earlier, "last": self._summary(res, list(log))}
         return obs, trace
 
+    def _obs_parallel(self, case, res, log, earlier, codes):
+        """run_parallel: stage results and callback events arrive in completion order; canonical = by stage index."""
+        log = sorted(log)
+        results = sorted(res.stage_results, key=lambda r: int(r.stage_name[1:]))
+        outs_by_stage = [r.output_signal for r in results if r.status.value == "completed"]
+        fo = res.final_output
+        obs = [[int(bool(res.success)), int(fo is not None), 0, -1, res.stages_completed], [1, 1], [len(results)]]
+        sres = []
+        for r in results:
+            i = int(r.stage_name[1:])
+            st = codes[r.status.value]
+            applied = st == 0
+            f = Fraction(r.amplification_factor) if applied else Fraction(1)
+            obs.append([i, st, int(applied), f.numerator, f.denominator])
+            sres.append((i, st, f if applied else None))
+        obs += [list(e) for e in log]
+        # the released outputs, in stage order when they are a permutation of the completed stages' outputs
+        perm = isinstance(fo, list) and sorted(map(repr, fo)) == sorted(map(repr, outs_by_stage))
+        obs.append([-5] + (outs_by_stage if (fo is not None and perm) else ([] if fo is None else [-777777])))
+        trace = {"parallel": True, "log": log, "sres": sres, "success": bool(res.success), "out": fo,
+                 "outs_by_stage": outs_by_stage, "amp": Fraction(res.total_amplification), "blocked": res.blocked_at,
+                 "earlier": earlier, "last": self._summary(res, log, True)}
+        return obs, trace
+
     @staticmethod
-    def _summary(res, log):
-        return [bool(res.success), repr(res.final_output), res.blocked_at, res.stages_completed,
-                str(Fraction(res.total_amplification)), [(r.stage_name, r.status.value) for r in res.stage_results], log]
+    def _summary(res, log, parallel=False):
+        rs = [(r.stage_name, r.status.value) for r in res.stage_results]
+        fo = res.final_output
+        if parallel:
+            rs = sorted(rs)
+            fo = sorted(map(repr, fo)) if isinstance(fo, list) else fo
+        return [bool(res.success), repr(fo), res.blocked_at, res.stages_completed,
+                str(Fraction(res.total_amplification)), rs, log]
 
     def _run_mapk(self, C, case):
         m = C.MAPKCascade(silent=True)
@@ -244,7 +283,8 @@ class C19(Check):
             return "HRaise" if h[0] == "raise" else f"(HRecover {cz(h[1])})"
         st = clist([ctuple(cb(s["c"]), pb(s["p"]), hb(s["h"]), cbool(s["req"]), cq(Fraction(s["f"])) + "%Q")
                     for s in case["stages"]])
-        return ctuple(cbool(case["halt"]), cq(Fraction(case["max"])) + "%Q", st, cz(case["x"]))
+        return ctuple(cbool(case.get("entry") == "run_parallel"), cbool(case["halt"]), cq(Fraction(case["max"])) + "%Q", st,
+                      cz(case["x"]))
 
     # -- the property, on the implementation's trace ------------------------
     def monitor(self, case, obs, trace):
@@ -253,6 +293,8 @@ class C19(Check):
         if trace.get("mapk"):
             return None if trace["ok"] else Violation("C19/mapk-preset", "MAPK preset does not complete with the composed output and clamped amplification 100")
         stages, log = case["stages"], trace["log"]
+        if trace.get("parallel"):
+            return self._monitor_parallel(case, trace)
         for k, e in enumerate(trace.get("earlier", [])):
             if e != trace["last"]:
                 return Violation("C19/state-carried-between-runs",
@@ -302,6 +344,42 @@ class C19(Check):
                     a = mx
         if a != trace["amp"]:
             return Violation("C19/amplification", f"total_amplification {trace['amp']} != clamped product {a}")
+        return None
+
+    def _monitor_parallel(self, case, trace):
+        """The property on a run_parallel trace: gates guard their stages, success iff all completed, no output
+        otherwise, on success the outputs are what the processors returned for the input."""
+        stages, log, x0 = case["stages"], trace["log"], case["x"]
+        for k, e in enumerate(trace.get("earlier", [])):
+            if e != trace["last"]:
+                return Violation("C19/state-carried-between-runs",
+                                 f"parallel run {k + 1} and run {len(trace['earlier']) + 1} of the same pipeline object on "
+                                 f"the same input differ: {e[:5]} vs {trace['last'][:5]}")
+        for (i, cb, x) in log:
+            if x != x0:
+                return Violation("C19/parallel-wrong-signal", f"stage {i} callback {cb} was handed {x}, the run's input is {x0}")
+            if cb == 1 and stages[i]["c"] is not None:
+                if ev_gate(stages[i]["c"], x) != "GPass" or [i, 0, x] not in log:
+                    return Violation("C19/gate-fail-open", f"run_parallel: stage {i} processed signal {x} although its "
+                                                           f"checkpoint did not return true for it")
+        for (i, st, _f) in trace["sres"]:
+            if st == 0 and stages[i]["c"] is not None and ev_gate(stages[i]["c"], x0) != "GPass":
+                return Violation("C19/gate-fail-open", f"run_parallel: stage {i} is reported COMPLETED although its checkpoint did not return true")
+        sts = [(i, st) for (i, st, _f) in trace["sres"]]
+        allc = sts == [(i, 0) for i in range(len(stages))]
+        if trace["success"] and not allc:
+            return Violation("C19/success-not-all-completed", f"run_parallel: success reported with stage results {sts}")
+        if not trace["success"] and trace["out"] is not None:
+            return Violation("C19/output-released-on-failure", f"run_parallel: final_output {trace['out']} released although success is False")
+        if trace["success"]:
+            want = []
+            for s in stages:
+                r = ev_proc(s["p"], x0)
+                if r[0] != "ok":
+                    return Violation("C19/success-not-all-completed", "run_parallel: success although a processor raises on the input")
+                want.append(r[1])
+            if sorted(map(repr, trace["out"] or [])) != sorted(map(repr, want)):
+                return Violation("C19/output-not-composition", f"run_parallel: final_output {trace['out']} != processors' outputs {want}")
         return None
 
     def nontrivial(self, case, obs, trace):
